@@ -5,14 +5,14 @@ from checks.boolops import BoolExpr
 
 OPS = ["|", "&", "-", "^"]
 
-PAIRS_QUICK = [("square", "square"), ("tri", "unit"), ("hollow2", "square")]
+PAIRS_QUICK = [("square", "square"), ("tri", "unit")]
 EXPRS_QUICK = [("~", ("|", "A", "B")), ("-", ("|", "A", "B"), ("&", "A", "B")), ("+", "A", ("*", "B", "W")), ("&", ("~", "A"), "B"), ("|", "A", ("~", "B")), ("^", "A", ("neg", "B"))]
 
 
-def spec(A, B, expr, **kw):
+def spec(A, B, expr, weight=1, time_budget=None, **kw):
     p = dict(A=A, B=B, expr=expr)
     p.update(kw)
-    return dict(module="checks.c01", scenario="BoolExpr", params=p)
+    return dict(module="checks.c01", scenario="BoolExpr", params=p, weight=weight, time_budget=time_budget)
 
 
 def specs(tier):
@@ -23,7 +23,6 @@ def specs(tier):
                 out.append(spec(A, B, [op, "A", "B"]))
         for e in EXPRS_QUICK:
             out.append(spec("square", "unit", e))
-        out.append(spec("square", "square", ["|", "A", "B"], dof=2, lim=3, max_paths=None))
         return out
     return out
 
